@@ -459,6 +459,42 @@ theorem compute_refG_aux (N : Nat) : ∀ node : Node, sizeOf node < N → NodeRe
       rw [Analysis.compute] at hco
       exact ih st (by simp only [Node.label.sizeOf_spec] at hsz; omega) cmd hd hn hc hg q idx dg out hco
 
+/-! ## commands without counted loops -/
+
+mutual
+/-- no counted loop (`for`) inside -/
+def noFor : Cmd → Bool
+  | .seq l => noForL l
+  | .ite t f => noFor t && noFor f
+  | .while_ b => noFor b
+  | .loop _ _ => false
+  | _ => true
+def noForL : List Cmd → Bool
+  | [] => true
+  | c :: cs => noFor c && noForL cs
+end
+
+mutual
+theorem guardsFresh_of_noFor : ∀ cmd : Cmd, noFor cmd = true → guardsFresh cmd = true
+  | .skip, _ => rfl
+  | .asgnVar .., _ => rfl
+  | .asgnConst .., _ => rfl
+  | .bin .., _ => rfl
+  | .seq l, h => by rw [noFor] at h; rw [guardsFresh]; exact guardsFreshL_of_noForL l h
+  | .ite t f, h => by
+    simp only [noFor, Bool.and_eq_true] at h
+    simp only [guardsFresh, Bool.and_eq_true]
+    exact ⟨guardsFresh_of_noFor t h.1, guardsFresh_of_noFor f h.2⟩
+  | .while_ b, h => by rw [noFor] at h; rw [guardsFresh]; exact guardsFresh_of_noFor b h
+  | .loop _ _, h => by simp [noFor] at h
+theorem guardsFreshL_of_noForL : ∀ l : List Cmd, noForL l = true → guardsFreshL l = true
+  | [], _ => rfl
+  | c :: cs, h => by
+    simp only [noForL, Bool.and_eq_true] at h
+    simp only [guardsFreshL, Bool.and_eq_true]
+    exact ⟨guardsFresh_of_noFor c h.1, guardsFreshL_of_noForL cs h.2⟩
+end
+
 end Refine
 
 open Spec Refine in
@@ -518,10 +554,11 @@ theorem compute_refines_partial (node : Node) (cmd : Cmd) (hd : desugar node = s
       exact ⟨rfl, f, fun x y hx hy => (den_matOf U _ hx hy).symm⟩
 
 open Spec Refine in
-/-- Priority (A) as a corollary: no counted loop in `cmd` (nothing to assume about guards). -/
+/-- Priority (A): commands built from leaves, sequences, `if`, `while` / `do-while` -- no counted
+    loop, hence nothing to assume about loop guards. -/
 theorem compute_refines_while_partial (node : Node) (cmd : Cmd) (hd : desugar node = some cmd)
+    (hnofor : noFor cmd = true)
     (q : Bool) (idx : Nat) (dg : DG.Graph) (hnames : namesOkA node = true) (hcast : castOkA node = true)
-    (hfresh : guardsFresh cmd = true)
     (out : Analysis.Out) (hc : Analysis.compute q idx dg node = .ok out) :
     (q = true → out.exit = false) ∧
     (out.exit = false →
@@ -533,7 +570,77 @@ theorem compute_refines_while_partial (node : Node) (cmd : Cmd) (hd : desugar no
           | some (k, M) => k = idx + cmd.arity ∧ (∀ a b, r.den c a b ≠ .i) ∧
                            ∀ x y, x ∈ U → y ∈ U → r.den c x y = SMat.den U M x y
           | none => ∃ a b, r.den c a b = .i) :=
-  let h := compute_refines_partial node cmd hd q idx dg hnames hcast hfresh out hc
+  let h := compute_refines_partial node cmd hd q idx dg hnames hcast (guardsFresh_of_noFor cmd hnofor) out hc
   ⟨h.1, h.2.2⟩
+
+open Spec Refine in
+/-- why `namesOk` / `castOk` must look into loop bodies: both accept `while (c) x = (T)(T)y;`
+    (they stop at the loop), `desugar` reads the body as `x = y`, but `compute_relation` strips one
+    cast only, reports the body as unsupported and returns the empty (identity) relation -/
+theorem while_body_cast_counterexample :
+    desugar (.while_ (.id "c") (.assign "=" (.id "x") (.cast (.cast (.id "y")))))
+      = some (.while_ (.asgnVar "x" "y")) ∧
+    namesOk (.while_ (.id "c") (.assign "=" (.id "x") (.cast (.cast (.id "y"))))) = true ∧
+    castOk (.while_ (.id "c") (.assign "=" (.id "x") (.cast (.cast (.id "y"))))) = true ∧
+    castOkA (.while_ (.id "c") (.assign "=" (.id "x") (.cast (.cast (.id "y"))))) = false ∧
+    Analysis.compute true 0 [] (.while_ (.id "c") (.assign "=" (.id "x") (.cast (.cast (.id "y")))))
+      = .ok ⟨0, [⟨[], []⟩], false, [], ["Assignment"]⟩ ∧
+    Relation.den ⟨[], []⟩ [] "y" "x" = .o ∧
+    sem ["x", "y"] (.while_ (.asgnVar "x" "y")) 0 [] = some (0, [[.m, .o], [.m, .m]]) := by
+  refine ⟨?_, by decide, by decide, by decide, ?_, by decide, by decide⟩
+  · simp [desugar, Node.rmCast]
+  · rfl
+
+open Spec Refine in
+/-- why `guardsFresh` is needed: `for (i = true; i < 10; i++) true = true + true;`.  `Variables`
+    never records the reserved names `true` / `false`, so `loop_compat` accepts `true` as the guard
+    `X` although the body assigns it.  The calculus (rule L with `X` = `true`, body `X = X + X`:
+    `p` or `w` on the diagonal) fails at every choice; the analysis composes the zero relation of
+    `X` in front and reports `m` without any ∞. -/
+theorem reserved_guard_counterexample :
+    desugar (.for_ (some (.assign "=" (.id "i") (.id "true")))
+        (some (.binop "<" (.id "i") (.const "int" "10"))) (some (.unop "p++" (.id "i")))
+        (.assign "=" (.id "true") (.binop "+" (.id "true") (.id "true"))))
+      = some (.loop "true" (.bin "+" "true" (.var "true") (.var "true"))) ∧
+    namesOkA (.for_ (some (.assign "=" (.id "i") (.id "true")))
+        (some (.binop "<" (.id "i") (.const "int" "10"))) (some (.unop "p++" (.id "i")))
+        (.assign "=" (.id "true") (.binop "+" (.id "true") (.id "true")))) = true ∧
+    castOkA (.for_ (some (.assign "=" (.id "i") (.id "true")))
+        (some (.binop "<" (.id "i") (.const "int" "10"))) (some (.unop "p++" (.id "i")))
+        (.assign "=" (.id "true") (.binop "+" (.id "true") (.id "true")))) = true ∧
+    guardsFresh (.loop "true" (.bin "+" "true" (.var "true") (.var "true"))) = false ∧
+    Analysis.compute true 0 [] (.for_ (some (.assign "=" (.id "i") (.id "true")))
+        (some (.binop "<" (.id "i") (.const "int" "10"))) (some (.unop "p++" (.id "i")))
+        (.assign "=" (.id "true") (.binop "+" (.id "true") (.id "true"))))
+      = .ok ⟨1, [⟨["true"], [[[⟨.m, []⟩]]]⟩], false, [], []⟩ ∧
+    (∀ a b, Relation.den ⟨["true"], [[[⟨.m, []⟩]]]⟩ [0] a b ≠ .i) ∧
+    sem ["true"] (.loop "true" (.bin "+" "true" (.var "true") (.var "true"))) 0 [0] = none := by
+  refine ⟨by rfl, by decide, by decide, by decide, by rfl, ?_, by decide⟩
+  intro a b h
+  have := Relation.mem_of_den_i h
+  simp only [List.mem_singleton] at this
+  obtain ⟨rfl, rfl⟩ := this
+  revert h
+  decide
+
+open Spec Refine in
+/-- non-vacuity: a counted loop around a `while` satisfies every hypothesis of
+    `compute_refines_partial`, and the analysis (early-exit mode) returns without exiting -/
+example :
+    desugar (.for_ (some (.assign "=" (.id "i") (.const "int" "0"))) (some (.binop "<" (.id "i") (.id "n")))
+      (some (.unop "p++" (.id "i")))
+      (.while_ (.id "c") (.assign "=" (.id "x") (.id "y")))) = some (.loop "n" (.while_ (.asgnVar "x" "y"))) ∧
+    namesOkA (.for_ (some (.assign "=" (.id "i") (.const "int" "0"))) (some (.binop "<" (.id "i") (.id "n")))
+      (some (.unop "p++" (.id "i")))
+      (.while_ (.id "c") (.assign "=" (.id "x") (.id "y")))) = true ∧
+    castOkA (.for_ (some (.assign "=" (.id "i") (.const "int" "0"))) (some (.binop "<" (.id "i") (.id "n")))
+      (some (.unop "p++" (.id "i")))
+      (.while_ (.id "c") (.assign "=" (.id "x") (.id "y")))) = true ∧
+    guardsFresh (.loop "n" (.while_ (.asgnVar "x" "y"))) = true ∧
+    ∃ out, Analysis.compute false 0 []
+      (.for_ (some (.assign "=" (.id "i") (.const "int" "0"))) (some (.binop "<" (.id "i") (.id "n")))
+        (some (.unop "p++" (.id "i")))
+        (.while_ (.id "c") (.assign "=" (.id "x") (.id "y")))) = .ok out ∧ out.exit = false :=
+  ⟨by rfl, by decide, by decide, by decide, _, rfl, rfl⟩
 
 end Mwp
